@@ -50,6 +50,17 @@ Proof.
 Qed.
 Print Assumptions C16_split_partitions.
 
+(* chunk c of the split gets floor(L/k) pairs plus one if c < L mod k (L = Nu*Nv): numpy's contract, which also says that
+   with more threads than pairs the trailing workers get an empty chunk (and, by the theorems above, change nothing) *)
+Theorem C16_split_chunk_sizes :
+  forall (k Nu Nv c : nat), 0 < k -> c < k ->
+    length (nth c (gen_split k (gen_pairs Nu Nv)) []) = (Nu * Nv) / k + (if c <? (Nu * Nv) mod k then 1 else 0).
+Proof.
+  intros k Nu Nv c Hk Hc. unfold gen_split. rewrite (array_split_chunk_len k _ c Hk Hc).
+  change (gen_pairs Nu Nv) with (pairs Nu Nv). now rewrite pairs_length.
+Qed.
+Print Assumptions C16_split_chunk_sizes.
+
 (* the executable scheduler used in the correspondence only produces interleavings *)
 Theorem C16_run_schedule_sound :
   forall (X : Type) (sched : list nat) (ws : list (list X)) (tr : list X),
